@@ -159,6 +159,119 @@ fn notation(args: &[String]) {
     out.flush().unwrap();
 }
 
+// ---------------------------------------------------------------------------------------
+// C17: groups of states that pairwise differ in exactly one hashed feature
+
+fn th_of(c: &[u8; 64], gold: bool, step: usize, pp: PushPullState) -> Result<u64, String> {
+    guarded(|| {
+        stage("hash constructors");
+        let pb = board_from_cells(c);
+        let z = Zobrist::from_piece_board(pb.piece_board(), gold, step);
+        let prev: Vec<PieceBoard> = (0..step).map(|_| pb.clone()).collect();
+        let ph = PlayPhase::new(z, List::new().append(z), prev, pp, false);
+        let gs = GameState::new(gold, 2, Phase::PlayPhase(ph), pb, z);
+        stage("transposition_hash");
+        gs.transposition_hash()
+    })
+}
+
+fn hex_list(v: &[Result<u64, String>]) -> String {
+    let xs: Vec<String> = v
+        .iter()
+        .map(|r| match r {
+            Ok(h) => format!("\"{:016x}\"", h),
+            Err(_) => "\"panic\"".to_string(),
+        })
+        .collect();
+    format!("[{}]", xs.join(","))
+}
+
+fn hash(args: &[String]) {
+    let nbases: usize = args[0].parse().unwrap();
+    let seed: u64 = args[1].parse().unwrap();
+    let mut out = std::io::BufWriter::new(std::fs::File::create(&args[2]).unwrap());
+    let mut rng = Rng::new(seed);
+    let mut pairs: u64 = 0;
+    for base_no in 0..nbases {
+        // base 0 is the empty board with Gold to move at step 0, nothing pending
+        let (base, gold, step, pp) = if base_no == 0 {
+            ([0u8; 64], true, 0usize, PushPullState::None)
+        } else {
+            let n = 4 + rng.below(26);
+            let c = positions::random_position(&mut rng, n);
+            let st = rng.below(4);
+            let pp = match rng.below(3) {
+                0 => PushPullState::None,
+                1 => PushPullState::PossiblePull(Square::from_index(rng.below(64) as u8), num_type(2 + rng.below(5) as u8)),
+                _ => PushPullState::MustCompletePush(Square::from_index(rng.below(64) as u8), num_type(1 + rng.below(5) as u8)),
+            };
+            (c, rng.chance(0.5), st, pp)
+        };
+        let base_json = format!(
+            "\"base\":{},\"bb\":[{}],\"bs\":{},\"bst\":{}",
+            base_no,
+            base.iter().map(|x| x.to_string()).collect::<Vec<_>>().join(","),
+            if gold { 1 } else { 2 },
+            step
+        );
+        // (1) the content of one square: 13 contents
+        for k in 0..64 {
+            let hs: Vec<_> = (0..13u8)
+                .map(|v| {
+                    let mut c = base;
+                    c[k] = v;
+                    th_of(&c, gold, step, pp)
+                })
+                .collect();
+            writeln!(out, "{{\"k\":\"group\",\"cls\":\"cell\",\"sq\":{},\"keys\":[0,1,2,3,4,5,6,7,8,9,10,11,12],\"th\":{},{}}}", k + 1, hex_list(&hs), base_json).unwrap();
+            pairs += 78;
+        }
+        // (2) one piece of a kind standing on different (empty) squares
+        for v in 1..=12u8 {
+            let empties: Vec<usize> = (0..64).filter(|&i| base[i] == 0).collect();
+            let hs: Vec<_> = empties
+                .iter()
+                .map(|&i| {
+                    let mut c = base;
+                    c[i] = v;
+                    th_of(&c, gold, step, pp)
+                })
+                .collect();
+            let keys: Vec<String> = empties.iter().map(|i| (i + 1).to_string()).collect();
+            writeln!(out, "{{\"k\":\"group\",\"cls\":\"kind\",\"c\":{},\"keys\":[{}],\"th\":{},{}}}", v, keys.join(","), hex_list(&hs), base_json).unwrap();
+            pairs += (empties.len() * (empties.len().max(1) - 1) / 2) as u64;
+        }
+        // (3) side to move
+        let hs = vec![th_of(&base, true, step, pp), th_of(&base, false, step, pp)];
+        writeln!(out, "{{\"k\":\"group\",\"cls\":\"side\",\"keys\":[1,2],\"th\":{},{}}}", hex_list(&hs), base_json).unwrap();
+        pairs += 1;
+        // (4) step number
+        let hs: Vec<_> = (0..4).map(|st| th_of(&base, gold, st, pp)).collect();
+        writeln!(out, "{{\"k\":\"group\",\"cls\":\"step\",\"keys\":[0,1,2,3],\"th\":{},{}}}", hex_list(&hs), base_json).unwrap();
+        pairs += 6;
+        // (5) all 641 push/pull statuses
+        let mut keys: Vec<String> = vec!["[0,0,0]".to_string()];
+        let mut hs = vec![th_of(&base, gold, step, PushPullState::None)];
+        for kind in [2u8, 1u8] {
+            for sq in 0..64u8 {
+                for t in 1..=6u8 {
+                    if (kind == 2 && t == 6) || (kind == 1 && t == 1) {
+                        continue; // a pushed elephant / a pulling rabbit cannot be represented
+                    }
+                    let s = Square::from_index(sq);
+                    let pps = if kind == 2 { PushPullState::MustCompletePush(s, num_type(t)) } else { PushPullState::PossiblePull(s, num_type(t)) };
+                    keys.push(format!("[{},{},{}]", kind, sq + 1, t));
+                    hs.push(th_of(&base, gold, step, pps));
+                }
+            }
+        }
+        writeln!(out, "{{\"k\":\"group\",\"cls\":\"pp\",\"keys\":[{}],\"th\":{},{}}}", keys.join(","), hex_list(&hs), base_json).unwrap();
+        pairs += (hs.len() * (hs.len() - 1) / 2) as u64;
+    }
+    writeln!(out, "{{\"k\":\"done\",\"bases\":{},\"pairs\":{}}}", nbases, pairs).unwrap();
+    out.flush().unwrap();
+}
+
 fn main() {
     let args: Vec<String> = std::env::args().collect();
     silence_panics();
@@ -168,6 +281,7 @@ fn main() {
     }
     match args[1].as_str() {
         "notation" => notation(&args[2..]),
+        "hash" => hash(&args[2..]),
         x => {
             eprintln!("unknown probe family {}", x);
             std::process::exit(2);
